@@ -163,13 +163,14 @@ def run(check, an: Analysis):
     dfn = do.fn
     for path in an.paths(do):
         created = [i for i, e in enumerate(path.events) if e.kind == 'call'
-                   and isinstance(e.node, ast.Call) and ast.unparse(e.node.func) == 'Task']
+                   and isinstance(e.node, ast.Call) and rules.text_at(path, e, e.node.func) == 'Task']
         sched = [i for i, e in enumerate(path.events) if is_call_to(e, 'schedule')]
-        appends = [(i, ast.unparse(e.node.func.value)) for i, e in enumerate(path.events)
+        appends = [(i, rules.value_text(path, i, e.node.func.value))
+                   for i, e in enumerate(path.events)
                    if e.kind == 'call' and isinstance(e.node, ast.Call)
                    and isinstance(e.node.func, ast.Attribute)
                    and e.node.func.attr == 'append'
-                   and '_children' in ast.unparse(e.node.func.value)]
+                   and '_children' in rules.value_text(path, i, e.node.func.value)]
         if path.kind == 'raise' and path.outcome[1].cls.endswith('ScopeClosed'):
             event = [e for e in path.events if e.kind == 'raise'][-1]
             closed = rules.tests_before(
@@ -202,7 +203,7 @@ def run(check, an: Analysis):
     for path in an.paths(finished):
         if not path.normal:
             continue
-        removes = [ast.unparse(e.node.func.value) for e in path.events
+        removes = [rules.text_at(path, e, e.node.func.value) for e in path.events
                    if e.kind == 'call' and isinstance(e.node, ast.Call)
                    and isinstance(e.node.func, ast.Attribute)
                    and e.node.func.attr == 'remove' and e.get('exit') == 'normal']
@@ -243,7 +244,7 @@ def run(check, an: Analysis):
             continue
         dones = [e for e in path.events if is_call_to(e, '__set_done__')]
         closes = [e for e in path.events if e.kind == 'call' and isinstance(
-            e.node, ast.Call) and ast.unparse(e.node.func) == 'self.__runner__.close']
+            e.node, ast.Call) and rules.text_at(path, e, e.node.func) == 'self.__runner__.close']
         started_test = [e for i, e in enumerate(path.events) if e.kind == 'test'
                         and '__runner__' in rules.value_text(path, i, e.node)]
         if not started_test:
